@@ -418,8 +418,12 @@ def run(c):
     # every rejection branch and its boundary
     for i in range(NS // 3):
         G, pr, m, a, e, inc, Om, om, f = rand_orbit("ell")
-        k = i % 12
-        if k == 0:
+        k = i % 14
+        if k == 12:
+            a = rng.choice([0.0, -0.0])                   # a == 0 with e < 1
+        elif k == 13:
+            a, e = rng.choice([0.0, -0.0]), rng.uniform(1.01, 3)
+        elif k == 0:
             e = 1.0
         elif k == 1:
             e = -10 ** rng.uniform(-300, 1)
@@ -719,6 +723,9 @@ def run(c):
     # ---------------------------------------------------------------- element round trips through the Python constructor
     roundtrips(c, rebound, clib, P, rng, fail, track, thorough, check_reader, rand_inc, rand_angle, add)
 
+    # ---------------------------------------------------------------- Python-only arguments with a C counterpart
+    python_only(c, rebound, clib, P, rng, fail)
+
     # ---------------------------------------------------------------- asymptote boundary e cos f == -1
     nb = 0
     for i in range(NS):
@@ -756,10 +763,10 @@ def run(c):
         p = sim.particles[1]
         c.count(("invalid-value", k, "accepted"))
         if not all(math.isfinite(v) for v in [p.x, p.y, p.z, p.vx, p.vy, p.vz]):
-            if k in (0, 1, 4):
+            if k in (0, 1):
                 fail(F19, "a = 0 (or P = 0) is accepted and gives a particle with NaN/inf velocity", dict(kwargs=kw))
             else:
-                fail(F20, "Pal elements of an unbound orbit (h^2+k^2 >= 1, or a < 0) are accepted and give a NaN particle", dict(kwargs=kw))
+                fail(F20, "Pal elements of an unbound or degenerate orbit (h^2+k^2 >= 1, or a <= 0) are accepted and give a NaN particle", dict(kwargs=kw))
     # documented rejections, asserted on the real code independently of the model
     for i in range(140):
         sim = rebound.Simulation()
@@ -1143,6 +1150,140 @@ def front_ends(c, rebound, clib, P, rng, add, fail, c_err_by_msg, thorough, trac
     for bits, co, po, rep, valid in pending:
         add("v " + bits, None, "v", (co, po, rep, valid))
     return stats
+
+
+def python_only(c, rebound, clib, P, rng, fail):
+    """Particle.__init__ arguments that reb_particle_from_fmt does not know: particle=, variation=/variation2=
+    (-> reb_particle_derivative_*), jacobi_masses=, "uniform" (-> reb_random_uniform), pal_* aliases.
+    Each is compared with the C routine it is documented to wrap."""
+    def vals(p):
+        return [d2h(getattr(p, k)) for k in COMPS + ["m", "r"]]
+    stats = {}
+
+    def tick(k):
+        stats[k] = stats.get(k, 0) + 1
+
+    def base_sim():
+        sim = rebound.Simulation()
+        sim.G = rng.choice([1.0, 39.476926421373])
+        sim.add(m=1.0, x=0.01, vy=-0.02)
+        sim.add(m=1e-3, a=1.0, e=0.1, inc=0.2, Omega=0.3, omega=0.4, f=0.5)
+        return sim
+    vt = ["m", "a", "e", "inc", "omega", "Omega", "f", "k", "h", "lambda", "ix", "iy"]
+    exists = lambda n: hasattr(clib, "reb_particle_derivative_" + n)
+    for rep_ in range(3):
+        sim = base_sim()
+        prim = sim.particles[0]
+        classical = rng.chance(0.5)
+        kw = dict(m=1e-3, a=rng.uniform(0.5, 3), e=rng.uniform(0.05, 0.6), inc=rng.uniform(0.1, 1), Omega=rng.uniform(0, 6), omega=rng.uniform(0, 6), f=rng.uniform(0, 6)) if classical else \
+            dict(m=1e-3, a=rng.uniform(0.5, 3), h=rng.uniform(-0.3, 0.3), k=rng.uniform(-0.3, 0.3), ix=rng.uniform(-0.5, 0.5), iy=rng.uniform(-0.5, 0.5), l=rng.uniform(0, 6))
+        po = P(simulation=sim, primary=prim, **kw)
+        # the documented way (elements + variation=, no particle=) builds the particle itself from locals()
+        extra = {}
+        try:
+            P(simulation=sim, primary=prim, variation="a", **kw)
+        except TypeError as ex:
+            if "binarydata" in str(ex) or "simp" in str(ex):
+                fail("C11:python-variation-without-particle", "Particle(simulation=sim, variation=..., <elements>) without particle= raises TypeError: "
+                     "locals() passed on to Particle(**lc) contains the local variables binarydata and simp", dict(kwargs=kw, error=str(ex)))
+                extra = dict(particle=po)      # the path rebound/variation.py uses
+            else:
+                raise
+        kw = dict(kw, **extra)
+        # particle= : a copy
+        cp = P(particle=po)
+        if bytes(cp) != bytes(po):
+            fail("python-particle-copy", "Particle(particle=p) is not a byte copy of p", dict(kwargs=kw))
+        tick("particle=")
+        # first order
+        for v1 in vt + ["l", "i"]:
+            n1 = {"l": "lambda", "i": "inc"}.get(v1, v1)
+            f_ = getattr(clib, "reb_particle_derivative_" + n1)
+            f_.restype = P
+            want = f_(D(sim.G), prim, po)
+            try:
+                got = P(simulation=sim, primary=prim, variation=v1, **kw)
+            except Exception as ex:
+                fail("python-variation:" + v1, "Particle(variation=%r) raises %s although reb_particle_derivative_%s exists" % (v1, type(ex).__name__, n1), dict(kwargs=kw, error=str(ex)))
+                continue
+            if vals(got)[:7] != vals(want)[:7]:
+                fail("python-variation:" + v1, "Particle(variation=%r) differs from reb_particle_derivative_%s(G, primary, particle)" % (v1, n1), dict(kwargs=kw, got=vals(got), want=vals(want)))
+            tick("variation")
+            c.count(("py-only", "variation", n1, classical))
+            # default primary is particles[0]
+            got0 = P(simulation=sim, variation=v1, **dict(kw, primary=prim))
+            if vals(got0)[:7] != vals(got)[:7]:
+                fail("python-variation-primary", "variation with explicit primary differs", dict(kwargs=kw))
+        # second order: Python orders the pair by its own list; the C name must exist under that order
+        for i1, v1 in enumerate(vt):
+            for i2, v2 in enumerate(vt):
+                a_, b_ = (v1, v2) if i1 <= i2 else (v2, v1)
+                name = a_ + "_" + b_
+                rev = b_ + "_" + a_
+                if not exists(name):
+                    if exists(rev) and rev != name:
+                        fail("python-variation2-name:" + name, "second-order derivative exists in C as %s but Python looks for %s" % (rev, name), dict(pair=[v1, v2]))
+                    continue
+                f_ = getattr(clib, "reb_particle_derivative_" + name)
+                f_.restype = P
+                want = f_(D(sim.G), prim, po)
+                try:
+                    got = P(simulation=sim, primary=prim, variation=v1, variation2=v2, **kw)
+                except Exception as ex:
+                    fail("python-variation2:" + name, "Particle(variation=%r, variation2=%r) raises %s although the C routine exists" % (v1, v2, type(ex).__name__), dict(kwargs=kw, error=str(ex)))
+                    continue
+                if vals(got)[:7] != vals(want)[:7]:
+                    fail("python-variation2:" + name, "second-order variational particle differs from reb_particle_derivative_%s" % name, dict(kwargs=kw, pair=[v1, v2]))
+                tick("variation2")
+                c.count(("py-only", "variation2", name, classical))
+    # jacobi_masses: same as an explicit primary = centre of mass with the Jacobi mass
+    for rep_ in range(40):
+        sim = base_sim()
+        kw = dict(m=rng.choice([0.0, 1e-3]), a=rng.uniform(1.5, 4), e=rng.uniform(0, 0.5), inc=rng.uniform(0, 1), f=rng.uniform(0, 6)) if rep_ % 2 else \
+            dict(m=1e-3, a=rng.uniform(1.5, 4), h=rng.uniform(-0.3, 0.3), k=rng.uniform(-0.3, 0.3), ix=rng.uniform(-0.3, 0.3), l=rng.uniform(0, 6))
+        got = P(simulation=sim, jacobi_masses=True, **kw)
+        com = clib.reb_simulation_com(ctypes.byref(sim))
+        interior = 0
+        for q_ in sim.particles:
+            interior += q_.m
+        com.m = sim.particles[0].m * (kw["m"] + interior) / interior - kw["m"]
+        want = P(simulation=sim, primary=com, **kw)
+        if vals(got) != vals(want):
+            fail("python-jacobi-masses", "Particle(jacobi_masses=True) is not the orbit around the centre of mass with the Jacobi mass", dict(kwargs=kw, got=vals(got), want=vals(want)))
+        tick("jacobi_masses")
+        c.count(("py-only", "jacobi", rep_ % 2))
+    # "uniform": the value drawn is reb_random_uniform(sim, 0, 2 pi) with the simulation's seed
+    clib.reb_random_uniform.restype = D
+    for nm in ["Omega", "omega", "pomega", "f", "M", "E", "l", "theta", "inc"]:
+        s1, s2 = base_sim(), None
+        seed = rng.randint(1, 2 ** 31 - 1)
+        s1.rand_seed = seed
+        s2 = s1.copy()
+        s2.rand_seed = seed
+        u = clib.reb_random_uniform(ctypes.byref(s2), D(0.0), D(2 * PI))
+        kw = dict(a=1.7, e=0.1)
+        got = P(simulation=s1, **dict(kw, **{nm: "uniform"}))
+        want = P(simulation=s2, **dict(kw, **{nm: u}))
+        if not (0.0 <= u < 2 * PI) or vals(got) != vals(want):
+            fail("python-uniform:" + nm, "%s=\"uniform\" is not %s=reb_random_uniform(sim, 0, 2pi)" % (nm, nm), dict(name=nm, u=u, got=vals(got), want=vals(want)))
+        tick("uniform")
+        c.count(("py-only", "uniform", nm))
+    # pal_* aliases
+    for nm in ["h", "k", "ix", "iy"]:
+        sim = base_sim()
+        x_ = rng.uniform(-0.3, 0.3)
+        g1 = P(simulation=sim, a=2.0, **{nm: x_})
+        g2 = P(simulation=sim, a=2.0, **{"pal_" + nm: x_})
+        if vals(g1) != vals(g2):
+            fail("python-pal-alias:" + nm, "pal_%s is not an alias of %s" % (nm, nm), dict(name=nm, value=x_))
+        try:
+            P(simulation=sim, a=2.0, **{nm: x_, "pal_" + nm: x_})
+            fail("python-pal-alias-both:" + nm, "passing both %s and pal_%s is accepted" % (nm, nm), dict(name=nm))
+        except ValueError:
+            pass
+        tick("pal_alias")
+        c.count(("py-only", "alias", nm))
+    c.cov["python_only_arguments"] = stats
 
 
 def roundtrips(c, rebound, clib, P, rng, fail, track, thorough, check_reader, rand_inc, rand_angle, add):
